@@ -111,13 +111,19 @@ Definition sl_blabels (base : list label) (add : list label) (del : list str) : 
   end.
 
 (* ---------------------------------------------------------------- stringlabels codec *)
-(* sizeWhenEncoded / encodeSize.  NOTE the code accepts x <= 1<<24 although only 24 bits are
-   written (see C39_len_2pow24_refuted). *)
+(* sizeWhenEncoded / encodeSize.  [fixed] = true: the tree after "fix: ... sizeWhenEncoded"
+   (x < 1<<24: a length that does not fit the 24 bits encodeSize writes is rejected with the
+   panic "String too long to encode as label."); false: the code as it was (x <= 1<<24
+   accepted, so 2^24 was written as 255,0,0,0 = length 0: C39_len_2pow24_old_refuted). *)
 Definition two24 : Z := 16777216.
-Definition encode_size (v : Z) : res str :=
+Definition encode_size_gen (fixed : bool) (v : Z) : res str :=
   if v <? 255 then Ok [v]
-  else if v <=? two24 then Ok [255; v mod 256; (v / 256) mod 256; (v / 65536) mod 256]
+  else if (if fixed then v <? two24 else v <=? two24)
+       then Ok [255; v mod 256; (v / 256) mod 256; (v / 65536) mod 256]
   else Panic.
+Definition encode_size : Z -> res str := encode_size_gen true.
+Definition encode_size_old : Z -> res str := encode_size_gen false.
+Definition encode_str_old (s : str) : res str := let* p := encode_size_old (zlen s) in Ok (p ++ s).
 Definition encode_str (s : str) : res str := let* p := encode_size (zlen s) in Ok (p ++ s).
 (* marshalLabelToSizedBuffer (writes back to front into a buffer sized by labelSize; modelled
    as forward concatenation) *)
